@@ -250,6 +250,7 @@ def load_rwmod():
     finally:
         sys.modules["threading"] = saved
     _RWMOD[0] = mod
+    common.cover_arm_late()        # the private copy's code objects exist only now (measured statement coverage)
     _install_monitoring(mod)
     return mod
 
